@@ -39,8 +39,8 @@ EDITS = ["calc_missing", "sel_missing", "sort_missing", "proj_missing", "join_pr
 
 def budget(tier):
     if tier == "quick":
-        return {"cases": 1200, "workers": 8, "watchdog_s": 1500}
-    return {"cases": 40000, "workers": 16, "watchdog_s": 7200}
+        return {"cases": 8000, "workers": 8, "watchdog_s": 1800}
+    return {"cases": 320000, "workers": 16, "watchdog_s": 3600, "budget_s": 600}
 
 
 def gen_case(rng, tier):
@@ -87,12 +87,14 @@ def run_case(case):
             cols = sorted(t.qualified_name for t in rel.columns)
             hidden = hidden_columns(rel)
             missing = rng.choice(hidden) if hidden and rng.random() < 0.7 else next(x for x in KEYS + "xyz" if x not in cols)
-            free = [x for x in KEYS if x not in cols] or ["g"]
+            free = [x for x in KEYS if x not in cols]
             some = rng.choice(cols) if cols else None
             tail = gen.op_signature(sub)[-3:]
             eng_name = str(rel.engine)
             edits = EDITS if case["all_options"] else rng.sample(EDITS, 6)
             for edit in edits:
+                if not free and edit in ("calc_missing", "unsupported_calc", "chain_columns"):
+                    continue  # every tag is taken: these edits cannot be formed on this target
                 combos = all_combos if case["all_options"] else [None] + rng.sample(all_combos[1:], 4)
                 expected = R.ColumnError
                 calls = []
